@@ -233,13 +233,17 @@ async def subscriber(w: World, topic: str, it):
     w.log(k='sub_end', topic=topic)
 
 
-def open_subs(w: World, tag: str = ''):
+def take_iterators(w: World):
     nl = w.nl
-    for topic, it in [
+    return [
         ('state_name', nl.subscribe_state()), ('run_info', nl.subscribe_run_info()), ('run_no', nl.subscribe_run_no()),
         ('statement', nl.subscribe('statement')), ('trace_nos', nl.subscribe_trace_ids()),
         ('continuous', nl.subscribe_continuous_enabled()), ('prompt_notice', nl.prompts()),
-    ]:
+    ]
+
+
+def open_subs(w: World, tag: str = '', its=None):
+    for topic, it in (take_iterators(w) if its is None else its):
         t = asyncio.ensure_future(subscriber(w, topic + tag, it))
         w.subs.append(t)
 
@@ -542,6 +546,11 @@ async def run_scenario(w: World):
                 w.log(k='await_timeout', task=name)
         elif op == 'subscribe':
             open_subs(w, tag=step[1] if len(step) > 1 else '#2')
+        elif op == 'take_iterators':
+            # the iterators are HANDED OUT now; nobody advances them yet (seed C03-4: a consumer that is scheduled later)
+            w.__dict__.setdefault('lazy', {})[step[1]] = take_iterators(w)
+        elif op == 'iterate':
+            open_subs(w, tag=step[1], its=w.lazy.pop(step[1]))
         elif op == 'subscribe_prompt_info_for':
             # a subscriber of the per-trace prompt stream, attached now (while the stream is live)
             t = asyncio.ensure_future(subscriber(w, f'prompt_info_{step[1]}', w.nl.subscribe_prompt_info_for(step[1])))
